@@ -164,7 +164,10 @@ def body(task, ins, params):
             continue
         persisted[p['name']] = _plain(v)
     for name in spec.get('registry_pulls', []):
-        ins[name] = task.input_tasks[name].value
+        ns = task.fullname.rpartition('::')[0]
+        # (an input from an inner namespace is addressed by its qualified name: once the pipeline is itself mounted under
+        #  a namespace the registry does not resolve the partial form 'lo::b' - not one of the forms of C10)
+        ins[name] = task.input_tasks[f'{ns}::{name}' if ns and '::' in name else name].value
     for name in spec.get('opt_pulls', []):     # an optional input: read when the chain has wired a task for it
         for k, v in dict.items(task.input_tasks):
             if (k == name or k.endswith('::' + name)) and v is not None:
